@@ -320,6 +320,13 @@ class _Factory:
         ]
         if len(app_calls) != 1:
             raise self.bad("falcon.App(middleware=middleware...) not found exactly once after the installation")
+        call = app_calls[0]
+        if call.args or {k.arg for k in call.keywords} != {"middleware"}:
+            # e.g. independent_middleware=False would skip process_response of middleware after a raising one
+            raise self.bad(f"falcon.App is called with more than `middleware=`: `{ast.unparse(call)[:80]}`")
+        mw_arg = ast.unparse(call.keywords[0].value)
+        if mw_arg not in ("middleware or None", "middleware"):
+            raise self.bad(f"unexpected middleware argument `{mw_arg}`")
         for s in body[last + 1 :]:
             for n in ast.walk(s):
                 if isinstance(n, ast.Name) and n.id == "middleware" and isinstance(n.ctx, (ast.Store, ast.Del)):
